@@ -476,6 +476,8 @@ def meaning(cs, sv: SpecView, c: Cand):
             return V
         if len(set(t.s for t in ts)) < len(ts) or len(set(t.e for t in ts)) < len(ts):
             return U
+        if any(t.e <= t.s for t in ts):
+            return U  # a zero-length member: "consecutive" is not defined by the docs
         ts.sort(key=lambda t: t.s)
         return b3(all(ts[i + 1].s == ts[i].e for i in range(len(ts) - 1)))
     if k in ("UnorderedTaskGroup", "OrderedTaskGroup"):
@@ -761,17 +763,23 @@ def _subcase(cs):
 
 
 def _kinds_of_constraint(cs, sv):
+    """coarse qualifiers for signatures: constraint kind, whether a zero-duration /
+    optional / variable-duration task is involved, whether the resource is cumulative"""
     from sim.spec import all_constraint_tasks
     kinds = [cs["kind"]]
-    for t in all_constraint_tasks(cs):
-        if t in sv.task:
-            kinds.append(sv.task_kind(t))
+    tids = [t for t in all_constraint_tasks(cs) if t in sv.task]
     rid = cs.get("resource")
     if rid is not None:
         kinds.append("CumulativeWorker" if rid in sv.cumul else "Worker")
         for a in sv.assign:
-            if a["resource"] == rid:
-                kinds.append(sv.task_kind(a["task"]))
+            if a["resource"] == rid or (a["resource"] in sv.select and rid in sv.select[a["resource"]]["workers"]):
+                tids.append(a["task"])
+    for t in tids:
+        ts = sv.task[t]
+        if ts["kind"] == "zero":
+            kinds.append("zero")
+        if ts.get("optional"):
+            kinds.append("optional")
     return kinds
 
 
